@@ -3,6 +3,7 @@ import json, os, re
 from . import common as C
 from . import engine as E
 from .engine import task, lit
+from .common import hx, sx, parse_sx, unhx
 
 TB = [
     "Coq 8.16.1 kernel; no axioms (Print Assumptions: closed under the global context)",
@@ -316,10 +317,25 @@ def c11(run, replay=None):
                               (docB, ["--help", "v"], "help")]:
         dcases.append((argv, expect, dict(files={"main.rh": dict(raw="#!/usr/bin/env rash\n" + doc + body)}, argv=(["--"] + argv if argv else []),
                                           desc=dict(usage=doc, argv=argv, expect=expect))))
+    # documentation blocks written in other ways (no blank after `#`, `#!` inside, tabs, CRLF, a `#` on a task line,
+    # comments after the tasks, unicode): the printed text must be exactly what the mirror of parse_help extracts
+    for blk, tail in [("#\n#Usage:  prog [--help]\n#\n# Options:\n#   --help  show  help\n#\n", "- debug:\n    msg: \"<<ran>>\"\n"),
+                      ("#\n# Usage: prog [--help]\n#!not shown\n#\ttabbed\n#   two  blanks\n#  é ✓\n", "- debug: # trailing comment on the first task\n    msg: \"<<ran>>\"\n# a later comment\n"),
+                      ("# Usage: prog [--help]\n", "\n- debug:\n    msg: \"<<ran>>\"\n# Usage: other\n"),
+                      ("#\r\n# Usage: prog [--help]\r\n#\r\n", "- debug:\r\n    msg: \"<<ran>>\"\r\n"),
+                      ("#\n# Usage:\n#   prog [--help]\n#   prog go\n#\n# Options:\n#   --help   Show this.\n#\n# Examples:\n#   prog go   # runs\n", "- debug:\n    msg: \"<<ran>>\"\n")]:
+        dcases.append((["--help"], "help", dict(files={"main.rh": dict(raw="#!/usr/bin/env rash\n" + blk + tail)}, argv=["--", "--help"],
+                                                desc=dict(usage=blk, argv=["--help"], expect="help"))))
     outs = E.run_impls([c for _, _, c in dcases])
+    helps = C.run_oracle([sx(["helpdoc", hx(c["files"]["main.rh"]["raw"])]) for _, _, c in dcases])
     nd = 0
-    for (argv, expect, c), o in zip(dcases, outs):
+    for (argv, expect, c), o, hm in zip(dcases, outs, helps):
         nd += 1
+        if expect == "help":
+            want = unhx(hm).decode("utf-8", "replace") + "\n"
+            if o["stdout"] != want:
+                run.violation("help request %r: the printed text is not the script's help text (mirror of parse_help): got %r, expected %r" % (argv, o["stdout"][:300], want[:300]),
+                              dict(desc=c["desc"], implementation=o, expected=want))
         ran = bool(o["log"]) or "<<ran>>" in o["stdout"]
         if expect == "reject" and (ran or o["rc"] == 0):
             run.violation("rejected arguments %r: tasks ran=%s exit=%s" % (argv, ran, o["rc"]), dict(desc=c["desc"], implementation=o))
